@@ -97,7 +97,7 @@ E["C10"] = dict(
 
 E["C13"] = dict(
     level="model_checking", ref="DESIGN.md §3 C13",
-    text="TLC model-checks the transcribed DBSCAN fit loop (every neighbour-query order for n<=4/5, linear order for all sequences of <=5/7 points on 1-D and <=4/6 on 2-D lattices) and a model of predict against IsDensityClustering / PredictOK plus structural and termination invariants; every model input and seeded random sets of 1..150 points in 1..4 dimensions are run through the real DBSCAN with both back ends (3 metrics, f32/f64, dyadic scales) and validated by TLC with the same predicates, including back-end independence.",
+    text="TLC model-checks the transcribed DBSCAN fit loop (every neighbour-query order for n<=4/5, linear order for all sequences of <=5/7 points on 1-D and <=4/6 on 2-D lattices) and a model of predict against IsDensityClustering / PredictOK plus structural and termination invariants; every model input and seeded random sets of 1..150 points in 1..4 dimensions are run through the real DBSCAN with both back ends (3 metrics, f32/f64, dyadic scales) and validated by TLC with the same predicates, including back-end independence; plus a family of widely spread half-integer 2-D to 4-D sets (deep cover trees with many children per node).",
     note="Exact on integer-lattice x power-of-two data only; non-dyadic continuous coordinates are not covered. Trusted: TLC and the Json module, the harness's integer projection, the serde dump of cluster_labels/num_classes.",
     technique="TLA+ design models (Dbscan.tla, DbscanPredict.tla) model-checked by TLC, spec->impl replay of all model inputs, and TLC trace validation of recorded real executions against DbscanProps.tla")
 
@@ -116,7 +116,7 @@ E["C07"] = dict(
 E["C08"] = dict(
     level="exploration", ref="DESIGN.md §3 C08",
     text="Coarse and partial (exploration): the Lasso validation table is decided exactly (Err expected / never panic / never hang, under a watchdog); intercept and predict identities; near-optimality as necessary coordinate-probe conditions on the stated objective evaluated in the spec, and a two-near-minimisers-are-close relation for the target-shift and l1_ratio = 1 clauses; a one-regressor soft-threshold design model checks the predicates (Sound / Sharp / Close).",
-    note="Near-optimality 'to tol' itself is not proved: the coordinate probes are necessary conditions. Resolution 2^-12; n<=20, p<=6; max_iter other than the default is not exercised.",
+    note="Near-optimality 'to tol' itself is not proved: the coordinate probes are necessary conditions. Resolution 2^-12; n<=20, p<=6; max_iter other than the default is not exercised. Elastic net is judged on all target means; near-optimality is also checked on exact 2^+-10 / 2^-20 rescalings.",
     technique=TECH_B)
 
 E["C09"] = dict(
